@@ -271,6 +271,10 @@ EXEC_GROUPS = [
     ["do 82 i = 1, 3", "do 82 j = 1, 3", "82 mat(i, j) = 0.0"],
     ["do 84 i = 1, 3", "84 call s()"],
     ["do 85 i = 1, 3", "85 write(*, *) i"],
+    ["lpo: do 86 i = 1, 3", "a(i) = 0.0", "86 continue"],
+    ["lpq: do 87 i = 1, 3", "a(i) = 0.0", "87 end do lpq"],
+    ["lpr: do i = 1, 3", "lps: do while (x > 0.0)", "x = x - 1.0", "end do lps", "end do lpr"],
+    ["ifn: if (x > 0.0) then", "y = 1.0", "else ifn", "y = 0.0", "end if ifn"],
     ["where (a > 0.0)", "a = 1.0", "elsewhere (a < -1.0)", "a = -1.0", "elsewhere", "a = 0.0",
      "end where"],
     ["forall (i = 1:3)", "where (mat(i, :) > 0.0) mat(i, :) = 1.0", "vec(i) = 0.0",
